@@ -15,12 +15,15 @@ CLAIMS = {
             'they are built from, extracted from the working tree, for ALL field values with no bound: the bytes appended to the buffer are exactly the image of the struct under a layout function written from the MQTT 5 standard '
             '(field order, flag bit positions, property identifiers, absent optionals omitted), the remaining-length and property-length fields equal the size of what follows, packet_len() equals the number of bytes written and nothing before the packet is touched; '
             'the derive_builder validate functions refuse exactly the requests that lack a mandatory part. In unit handle/context: each request becomes one message, written by one write() call as a whole packet, in submission order. '
-            'NOT under contract: the option setters of client/opts.rs (caller option -> Tx struct field); the replay suite c01_wire samples them natively (bounded, not counted as proved).', '5 C01'),
+            'Unit opts: every public method of ConnectOpts/AuthOpts/PublishOpts/SubscribeOpts/SubscriptionOpts/UnsubscribeOpts/DisconnectOpts (71 functions of client/opts.rs) sets exactly the one builder slot it documents to the wrapper of the caller\'s value '
+            '(whole-builder postcondition, documented panic conditions as preconditions), subscription option bits at the standard\'s positions, and build() is Ok exactly when the mandatory parts are there and carries every slot into the Tx struct (over the assumed derive_builder build contract). '
+            'The contracts of the option stand-ins used by unit handle are the same text (//@splice) and are proved in unit opts.', '5 C01'),
     'C02': ('proof', 'Verus discharges, on the real TryDecode impls of all eleven inbound packet types, of RxPacket::try_decode (dispatcher) and of every primitive/property decoder, extracted from the working tree, for ALL byte strings with no bound, '
             'two contracts written from the standard: soundness (an accepted packet has exactly the field values the bytes denote: fixed-header bits, identifiers, reason codes, every property by identifier, repeated user properties and '
             'subscription identifiers all kept in order, absent properties read as the standard defaults) and acceptance (every well-formed packet, incl. the shortened PUBACK-family/AUTH/DISCONNECT forms, any legal property set in any order, MUST decode Ok), '
             'with concrete well-formed example packets proved to satisfy the acceptance precondition (non-vacuity). '
-            'NOT under contract: the accessor functions of client/rsp.rs and client/error.rs (struct field -> public getter); the replay suite c02_decode samples them natively (bounded, not counted as proved).', '5 C02'),
+            'Unit accessors: all 67 value accessors of client/rsp.rs and client/error.rs and the 5 TryFrom / the From conversions return exactly the corresponding field of the wrapped packet with the documented conversion (strings under wf(): present string fields are UTF-8, which the decoders\' postconditions are proved to establish). '
+            'NOT under contract: the iterator-based methods of UserProperties (core/collections.rs); the replay suite c02_decode samples them natively (bounded, not counted as proved).', '5 C02'),
     'C04': ('proof', 'Panic-freedom half: every implicit obligation Verus generates (index in range, unwrap/expect on Some/Ok, slice/split_to/advance within the buffer, arithmetic overflow with overflow checks ON, unreachable!/assert! reachability, callee preconditions) '
             'on every function extracted in every unit (decoders for arbitrary bytes, framing layer for arbitrary chunkings, context handlers for arbitrary packets in any session state, connect/authorize/run arms for any first inbound item) is discharged, no bound. '
             'No-stall half: only the per-call statement of C03 (a complete buffered frame is returned, never Pending); termination/liveness of the run loop is not proved. '
@@ -51,7 +54,9 @@ CLAIMS = {
             'nothing else changes quota or Receive Maximum.', '5 C10'),
     'C11': ('proof', 'Verus discharges on the real allocators next_packet_id/next_sub_id (any value may come back from fetch_add): result != 0 resp. within 1..=268435455, '
             'and at every call site in publish/subscribe/unsubscribe the non-zero/in-range precondition of the option setters (the unwrap that used to panic). '
-            'Distinctness among outstanding operations is a pure lemma over the assumed fetch_add semantics (wrapping +1, atomic), see level_note.', '5 C11'),
+            'Distinctness: the two allocators are extracted a second time against a sequential model of the shared counter (ghost counter threaded through fetch_add: returns the current value, advances by one, wrapping; linearizability of the atomic is the assumption that reduces multi-clone / multi-thread histories to this): '
+            'the identifier handed out is the counter value with zero skipped and the counter moves past it, termination of the skip loop included; a lemma over that function shows fewer than 65536 consecutive allocations hand out pairwise distinct non-zero packet identifiers. '
+            'The messages handed to the context are keyed by the identifier of the very packet whose bytes they carry (subscribe: also the stream is registered under the packet\'s own subscription identifier).', '5 C11'),
     'C12': ('proof', 'Verus discharges: validate_packet_size is Ok iff no limit or len <= M; an oversize message leaves wire, queues and quota untouched and is '
             'answered with MaximumPacketSizeExceeded only; an accepted message is written as one whole packet; CONNACK stores M.', '5 C12'),
     'C13': ('proof', 'Verus discharges connect()/authorize() outcome-by-first-inbound-item (ConnectRsp / ConnectError by the 0x80 threshold / AuthRsp / SocketClosed / CodecError / error for any other packet), '
